@@ -187,6 +187,9 @@ def amounts_f64(rng, n_random=4):
            ("pow2", 2.0 ** (rng.below(40) - 20)), ("pow10", 10.0 ** (rng.below(20) - 10)),
            ("tiny", 1e-300 * (rng.below(9) + 1)), ("huge", 1e300 / (rng.below(9) + 1)),
            ("subnormal", f64_from_bits(rng.below(1 << 40) + 1))]
+    # whole numbers at the boundaries of the integer types (a detour through i32 / i64 / u64 saturates or wraps there)
+    b = [2.0 ** 31, 2.0 ** 32, 2.0 ** 53, 2.0 ** 63, 2.0 ** 64][rng.below(5)]
+    out.append(("int-boundary", [b, -b, b + 2 * (b // 2 ** 52 or 1), -(b * (1 + 2.0 ** -52)), b - 1 if b < 2 ** 53 else b * (1 - 2.0 ** -53)][rng.below(5)]))
     for _ in range(n_random):
         # full-precision mantissa, moderate exponent
         m = rng.below(1 << 52)
@@ -212,6 +215,9 @@ def amounts_dec(rng, n_random=4):
     j = rng.below(6) + 1
     out.append(("int-digits", ((rng.below(50) + 2) * 10 ** j, j)))
     out.append(("neg-int-digits", (-(rng.below(9) + 1) * 10 ** j, j)))
+    # coefficients at the boundaries of the integer types, with and without fractional digits
+    cb = [2 ** 31, 2 ** 32, 2 ** 63, 2 ** 64][rng.below(4)] + rng.below(3) - 1
+    out.append(("coeff-boundary", (cb if rng.below(2) else -cb, [0, 1, 9, 18][rng.below(4)])))
     for _ in range(n_random):
         nfd = rng.below(19)
         digits = rng.below(17) + 1
